@@ -3,7 +3,7 @@ import ast
 import os
 import z3
 from .vtypes import *  # noqa
-from .state import State, Unsupported, StaleContract, fresh_name, default_of
+from .state import State, Unsupported, StaleContract, fresh_name, default_of, fresh_mark
 from .exprs import Ctx, SPEC_TYPES
 
 SKIP_CALL_PREFIXES = ("logger.", "logging.", "print", "traceback.", "gc.", "warnings.")
@@ -85,10 +85,13 @@ class CallMixin:
         gen = node.generators[0]
         it = self.ev(gen.iter, st, ctx)
         vars_, guard, bound = self.iter_binder(it, st, ctx, gen.target)
+        mark = fresh_mark()
         st2 = st.copy()
         st2.writes = None
         self.bind_target(gen.target, bound[0], st2)
         ctx.binders.append((vars_, guard))
+        self._bound_stack = getattr(self, "_bound_stack", [])
+        self._bound_stack.append(list(vars_))
         try:
             g = guard
             c2 = ctx
@@ -102,8 +105,10 @@ class CallMixin:
                 elt = mk_tuple([self.ev(node.key, st2, c2), self.ev(node.value, st2, c2)])
         finally:
             ctx.binders.pop()
+            self._bound_stack.pop()
         if len(st2.pc) > len(st.pc):
             for f in st2.pc[len(st.pc):]:
+                self.binder_audit(f, vars_, mark, node)
                 st.assume(z3.ForAll(vars_, z3.Implies(guard, f)))
         if st2.alloc is not st.alloc:
             st.assume(st2.alloc >= st.alloc)  # allocation in the body (also when the iteration is empty)
@@ -486,6 +491,23 @@ class CallMixin:
         # same sum written in the code and in a specification is the same term
         import hashlib
         summand = z3.If(g, e.t, 0)
+        # the partial-sum function has one argument (the prefix length): a sum that varies with a variable bound by an enclosing
+        # quantifier or comprehension would need that variable as a parameter - outside the subset (sound: refused, never mis-encoded)
+        enclosing = [v for vs in getattr(self, "_bound_stack", []) for v in vs]
+        if enclosing:
+            fc = self.free_consts(summand) + self.free_consts(n)
+            deps = [v for v in enclosing if any(x.eq(v) for x in fc)]
+            if deps:
+                # the sum varies with variables bound by enclosing quantifiers / comprehensions: they become parameters of the
+                # partial-sum function (the facts below are generalised over them by the enclosing binder)
+                place = [z3.Const("__B%d" % i, d.sort()) for i, d in enumerate(deps)]
+                canon = z3.substitute(summand, (j, z3.Int("__J")), *list(zip(deps, place)))
+                psf = z3.Function("psumd_" + hashlib.md5(canon.sexpr().encode()).hexdigest()[:12], *([d.sort() for d in deps] + [I, I]))
+                jj = z3.Int(fresh_name("j"))
+                st.assume(psf(*(deps + [z3.IntVal(0)])) == 0)
+                st.assume(z3.ForAll([jj], z3.Implies(z3.And(0 <= jj, jj < n), psf(*(deps + [jj + 1])) == psf(*(deps + [jj])) + z3.If(
+                    z3.substitute(g, (j, jj)), z3.substitute(e.t, (j, jj)), 0))))
+                return mk_int(psf(*(deps + [n])))
         canon = z3.substitute(summand, (j, z3.Int("__J")))
         ps = z3.Function("psum_" + hashlib.md5(canon.sexpr().encode()).hexdigest()[:12], I, I)
         jj = z3.Int(fresh_name("j"))
@@ -549,6 +571,32 @@ class CallMixin:
             self._psums.append((ps2, (jj, src), pn))
             self.notes.add("sum over a filtered list related to the sum over its source list (filter-sum lemma of the encoding)")
             return
+
+    def binder_audit(self, f, vars_, mark, node):
+        """a fact assumed while the body of a binder was evaluated is generalised over the bound variables; if it constrains a
+        constant that was created inside the body *and* mentions a bound variable, that constant would have to be a function of
+        the variable (a Skolem function) - generalising it as a constant is unsound, so such bodies are refused"""
+        fc = self.free_consts(f)
+        if not any(x.eq(v) for x in fc for v in vars_):
+            return
+        for x in fc:
+            if any(x.eq(v) for v in vars_):
+                continue
+            nm = x.decl().name()
+            if nm.startswith("alloc!"):
+                continue  # the allocation bound after a call: one constant above the objects of every binding (an upper bound, not a definition)
+            if "!" in nm:
+                try:
+                    k = int(nm.rsplit("!", 1)[1])
+                except ValueError:
+                    continue
+                if k > mark:
+                    if os.environ.get("PYVC_BINDER_AUDIT") == "log":
+                        import sys
+                        print("BINDER-AUDIT %s line %s const %s" % (self.cur_qual, getattr(node, "lineno", "?"), nm), file=sys.stderr)
+                        return
+                    raise Unsupported("a constant (%s) is defined inside a binder in terms of the bound variable (line %s)"
+                                      % (nm, getattr(node, "lineno", "?")))
 
     def free_consts(self, t):
         out, seen, todo = [], set(), [t]
